@@ -1,6 +1,6 @@
 SPECIFICATION Spec
 CONSTANTS
-  MaxLen = 5
+  MaxLen = 4
   InitOps = 3
   WithRestore = FALSE
   Bug = "none"
